@@ -7,6 +7,7 @@ import (
 	"log"
 	"os"
 	"path/filepath"
+	"strconv"
 	"strings"
 	"testing"
 	"testing/synctest"
@@ -231,6 +232,20 @@ func Worker(t *testing.T) {
 		cfg := sc.GenCfg(rng, env.Tier, env.Prop, env.Variant)
 		sim.SeedRuntime(sim.Mix(seed ^ 0x71e5))
 		o := runSc(sc, t, env.Prop, seed, cfg, nil, nil, false)
+		if n, _ := strconv.Atoi(os.Getenv("VERIF_REPEAT")); n > 0 {
+			// determinism self-test: the same seed, run again in the same process, must give the same event log
+			for k := 0; k < n; k++ {
+				o2 := runSc(sc, t, env.Prop, seed, cfg, nil, nil, false)
+				if os.Getenv("VERIF_DEBUG") != "" {
+					fmt.Fprintf(os.Stderr, "repeat %d: %016x (first %016x)\n", k, o2.Hash, o.Hash)
+				}
+				if o2.Hash != o.Hash {
+					res.Notes = append(res.Notes, fmt.Sprintf("selftest: seed %d run again gives a different event log (%016x vs %016x)", seed, o.Hash, o2.Hash))
+					res.Inconclusive++
+					break
+				}
+			}
+		}
 		if os.Getenv("VERIF_SELFTEST") != "" {
 			// determinism self-test: the recording of a run, replayed, must give the same event log
 			st := o.Steps
